@@ -291,6 +291,23 @@ Section C09.
     now rewrite (nth_error_nth' _ _ _ (no_target K dk) Hj) in Hs.
   Qed.
 
+
+  (* any two complete runs of the scheduler on the same inputs -- for instance
+     what Go's readers deliver for the refined and for the unrefined plan of a
+     segment -- carry equal keys at equal positions: they differ only by the
+     order of rows with equal keys *)
+  Theorem C09_runs_same_keys : forall (st : list (list row)) out1 st1 out2 st2 i a b,
+    Forall sorted st -> tagged K st ->
+    sched cmp st out1 st1 -> all_empty K st1 -> sched cmp st out2 st2 -> all_empty K st2 ->
+    nth_error out1 i = Some a -> nth_error out2 i = Some b -> cmp (key a) (key b) = 0.
+  Proof.
+    intros st out1 st1 out2 st2 i a b Hs Ht R1 E1 R2 E2 Ha Hb.
+    destruct (sched_complete_correct K cmp cmp_opp cmp_trans _ _ _ R1 E1 Hs Ht) as [S1 [P1 _]].
+    destruct (sched_complete_correct K cmp cmp_opp cmp_trans _ _ _ R2 E2 Hs Ht) as [S2 [P2 _]].
+    exact (sorted_perm_same_keys K cmp cmp_opp cmp_trans out1 out2 i a b S1 S2
+             (Permutation_trans (Permutation_sym P1) P2) Ha Hb).
+  Qed.
+
   (** the cut lookups are conservative for every page layout and whatever page
       sort.Search lands on: all rows at or after cutAbove(k) are strictly above
       [k], all rows before cutBelow(k) strictly below *)
@@ -359,6 +376,7 @@ Print Assumptions C09_sort_ranges_contract.
 Print Assumptions C09_refine_plan_equiv.
 Print Assumptions C09_stable_merge_is_a_run.
 Print Assumptions C09_refine_plan_any_merge.
+Print Assumptions C09_runs_same_keys.
 Print Assumptions C09_cut_lookups_conservative.
 Print Assumptions C09_merge2_progress.
 Print Assumptions C09_merge2_terminates.
